@@ -17,37 +17,38 @@ import (
 const modPath = "gitlab.com/yawning/obfs4.git"
 
 type World struct {
-	RepoDir   string
-	Prog      *ssa.Program
-	Pkgs      []*packages.Package
-	SSAPkgs   map[string]*ssa.Package // by path
-	AllFuncs  map[*ssa.Function]bool
-	FuncByKey map[string]*ssa.Function // fn.String() -> fn
-	Specs     *Specs
-	TypeByKey map[string]types.Type // "bytes.Buffer" -> named type
-	ContractOf map[*ssa.Function]*Contract
-	IfaceSpec map[string]*Contract // "(net.Conn).Read" -> contract
-	TagOf     map[string]int       // dynamic type string -> tag
-	TagNames  []string
-	Sentinels map[*ssa.Global]int // package-level error sentinels (errors.New) -> id
+	RepoDir      string
+	Prog         *ssa.Program
+	Pkgs         []*packages.Package
+	SSAPkgs      map[string]*ssa.Package // by path
+	AllFuncs     map[*ssa.Function]bool
+	FuncByKey    map[string]*ssa.Function // fn.String() -> fn
+	Specs        *Specs
+	TypeByKey    map[string]types.Type // "bytes.Buffer" -> named type
+	ContractOf   map[*ssa.Function]*Contract
+	Unbound      []unboundContract    // contracts in /repo whose target function no longer exists or changed its signature
+	IfaceSpec    map[string]*Contract // "(net.Conn).Read" -> contract
+	TagOf        map[string]int       // dynamic type string -> tag
+	TagNames     []string
+	Sentinels    map[*ssa.Global]int        // package-level error sentinels (errors.New) -> id
 	SentinelType map[*ssa.Global]types.Type // dynamic type when initialised by a conversion
-	ToolErrs  []string
-	tagTypeMap map[int]types.Type
-	tagsAtLoad int
-	lits map[string][]string
-	litByText map[string]string
-	zeroGlobals map[*ssa.Global]bool
-	eltyIDs map[string]int
-	implCache map[string][]int
-	embeddable map[string]bool
-	containers map[string]map[string]types.Type
-	elemOf map[string]bool
-	contCache map[string][]types.Type
-	specFnDecl map[string]string
-	specFnBody map[string]string
-	specFnOrder []string
-	axiomSMT []string
-	axiomSyms [][]string
+	ToolErrs     []string
+	tagTypeMap   map[int]types.Type
+	tagsAtLoad   int
+	lits         map[string][]string
+	litByText    map[string]string
+	zeroGlobals  map[*ssa.Global]bool
+	eltyIDs      map[string]int
+	implCache    map[string][]int
+	embeddable   map[string]bool
+	containers   map[string]map[string]types.Type
+	elemOf       map[string]bool
+	contCache    map[string][]types.Type
+	specFnDecl   map[string]string
+	specFnBody   map[string]string
+	specFnOrder  []string
+	axiomSMT     []string
+	axiomSyms    [][]string
 }
 
 func loadWorld(repo string, specDir string) (*World, error) {
@@ -129,6 +130,11 @@ func loadWorld(repo string, specDir string) (*World, error) {
 	return w, nil
 }
 
+type unboundContract struct {
+	c   *Contract
+	msg string
+}
+
 // bindContracts resolves every contract key to an SSA function or an
 // interface method.  An unresolved key or an arity mismatch is a tool error.
 func (w *World) bindContracts() error {
@@ -163,7 +169,10 @@ func (w *World) bindContracts() error {
 				// spec for a function that is not in the program: ignore silently (unused spec)
 				continue
 			}
-			return fmt.Errorf("%s:%d: contract target %q does not exist in %s", c.File, c.Line, c.Key, c.Pkg)
+			// the function the contract was written for is gone (renamed, removed, receiver changed):
+			// whatever the contract proved is no longer proved - a failed obligation, not a tool error
+			w.Unbound = append(w.Unbound, unboundContract{c, fmt.Sprintf("%s:%d: contract target %q does not exist in %s", c.File, c.Line, c.Key, c.Pkg)})
+			continue
 		}
 		np := len(fn.Params)
 		nr := fn.Signature.Results().Len()
@@ -172,8 +181,13 @@ func (w *World) bindContracts() error {
 			for _, p := range fn.Params {
 				pn = append(pn, p.Name())
 			}
-			return fmt.Errorf("%s:%d: contract for %s names %d params / %d results, function has %d (%s) / %d",
+			msg := fmt.Sprintf("%s:%d: contract for %s names %d params / %d results, function has %d (%s) / %d",
 				c.File, c.Line, c.Key, len(c.Params), len(c.Results), np, strings.Join(pn, ","), nr)
+			if c.Pkg == "" {
+				return fmt.Errorf("%s", msg)
+			}
+			w.Unbound = append(w.Unbound, unboundContract{c, msg})
+			continue
 		}
 		w.ContractOf[fn] = c
 	}
@@ -248,6 +262,19 @@ func (w *World) findSentinels() {
 			}
 		}
 	}
+}
+
+// arrayClass: the smallest tag among the array types whose underlying type is identical to that of
+// tag id (pointers to such types convert into each other, so they may alias).
+func (w *World) arrayClass(id int) int {
+	t := w.tagTypes()[id]
+	best := id
+	for oid, ot := range w.tagTypes() {
+		if _, isArr := ot.Underlying().(*types.Array); isArr && oid < best && types.Identical(ot.Underlying(), t.Underlying()) {
+			best = oid
+		}
+	}
+	return best
 }
 
 func (w *World) tagFor(t types.Type) int {
@@ -588,6 +615,11 @@ func (w *World) implementers(it *types.Interface, named types.Type) []int {
 // types never share storage).
 func (w *World) eltyFor(t types.Type) int {
 	k := types.TypeString(t.Underlying(), nil)
+	if b, ok := t.Underlying().(*types.Basic); ok {
+		// byte/uint8 and rune/int32 are the same type under two names (types.Typ[types.Byte] prints
+		// "uint8", the element type of a source-level []byte prints "byte"): one id per kind
+		k = fmt.Sprintf("basic#%d", b.Kind())
+	}
 	if w.eltyIDs == nil {
 		w.eltyIDs = map[string]int{}
 	}
